@@ -13,24 +13,27 @@ INC_DIRS = [
     "lib/texelutillib", "lib/texelutillib/pg", "app/texel",
 ]
 
+# Optimisation level -O3 like the repository's own CMake build (CMakeLists.txt replaces -O2 by -O3). With g++ 12 at -O2 the SLP
+# vectoriser drops the inlined NNEvaluator::computeL1Out() stores from NNEvaluator::eval() (stale l1OutClipped is used); every
+# harness that evaluates positions runs a poison self-test at start-up (harness/evalsanity.hpp) and exits 2 if the flavour is affected.
 COMMON = "-DHAS_RT -DTEXEL_VERIF -Wno-psabi -fno-stack-protector -w"
 
 # name -> dict(cxx, cc, flags, ldflags, shim)
 FLAVOURS = {
     "seq":  dict(cxx="g++", cc="gcc",
-                 flags="-O2 -g1 -fsanitize=address,undefined -fno-sanitize-recover=undefined -fno-omit-frame-pointer",
+                 flags="-O3 -g1 -fsanitize=address,undefined -fno-sanitize-recover=undefined -fno-omit-frame-pointer",
                  ld="-fsanitize=address,undefined"),
-    "fast": dict(cxx="g++", cc="gcc", flags="-O2", ld=""),
-    "sched": dict(cxx="g++", cc="gcc", flags="-O1 -g1", ld="", shim=True),
-    "sched-asan": dict(cxx="g++", cc="gcc", flags="-O1 -g1 -fsanitize=address -fno-omit-frame-pointer",
+    "fast": dict(cxx="g++", cc="gcc", flags="-O3 -g1", ld=""),
+    "sched": dict(cxx="g++", cc="gcc", flags="-O3 -g1", ld="", shim=True),
+    "sched-asan": dict(cxx="g++", cc="gcc", flags="-O3 -g1 -fsanitize=address -fno-omit-frame-pointer",
                   ld="-fsanitize=address", shim=True),
-    "sched-tsan": dict(cxx="g++", cc="gcc", flags="-O1 -g1 -fsanitize=thread", ld="-fsanitize=thread", shim=True),
-    "free-tsan": dict(cxx="g++", cc="gcc", flags="-O1 -g1 -fsanitize=thread", ld="-fsanitize=thread"),
-    "simd-generic": dict(cxx="g++", cc="gcc", flags="-O2", ld=""),
-    "simd-ssse3": dict(cxx="g++", cc="gcc", flags="-O2 -mssse3 -DUSE_SSSE3", ld=""),
-    "simd-avx2": dict(cxx="g++", cc="gcc", flags="-O2 -mssse3 -mavx2 -DUSE_SSSE3 -DUSE_AVX2", ld=""),
+    "sched-tsan": dict(cxx="g++", cc="gcc", flags="-O3 -g1 -fsanitize=thread", ld="-fsanitize=thread", shim=True),
+    "free-tsan": dict(cxx="g++", cc="gcc", flags="-O3 -g1 -fsanitize=thread", ld="-fsanitize=thread"),
+    "simd-generic": dict(cxx="g++", cc="gcc", flags="-O3", ld=""),
+    "simd-ssse3": dict(cxx="g++", cc="gcc", flags="-O3 -mssse3 -DUSE_SSSE3", ld=""),
+    "simd-avx2": dict(cxx="g++", cc="gcc", flags="-O3 -mssse3 -mavx2 -DUSE_SSSE3 -DUSE_AVX2", ld=""),
     "simd-avx512": dict(cxx="g++", cc="gcc",
-                        flags="-O2 -mssse3 -mavx2 -mavx512f -mavx512bw -mavx512vnni -DUSE_SSSE3 -DUSE_AVX2 -DUSE_AVX512", ld=""),
+                        flags="-O3 -mssse3 -mavx2 -mavx512f -mavx512bw -mavx512vnni -DUSE_SSSE3 -DUSE_AVX2 -DUSE_AVX512", ld=""),
 }
 
 def repo_sources():
